@@ -58,7 +58,50 @@ func RootPath(v ssa.Value) (ssa.Value, string) {
 	for i, j := 0, len(parts)-1; i < j; i, j = i+1, j-1 {
 		parts[i], parts[j] = parts[j], parts[i]
 	}
-	return v, strings.Join(parts, "")
+	return Unspill(v), strings.Join(parts, "")
+}
+
+// Unspill sees through go/ssa's spilling of a parameter that is captured by a
+// closure or has its address taken: "t0 = new T (p); *t0 = p; ... *t0" is p.
+func Unspill(v ssa.Value) ssa.Value {
+	u, ok := v.(*ssa.UnOp)
+	if !ok || u.Op != token.MUL {
+		return v
+	}
+	al, ok := u.X.(*ssa.Alloc)
+	if !ok {
+		return v
+	}
+	var src ssa.Value
+	n := 0
+	for _, ref := range *al.Referrers() {
+		switch x := ref.(type) {
+		case *ssa.Store:
+			if x.Addr == ssa.Value(al) {
+				n++
+				src = x.Val
+			}
+		case *ssa.MakeClosure:
+			// captured: the closure may write it; only accept when no closure stores to it
+			if cf, ok := x.Fn.(*ssa.Function); ok {
+				for i, b := range x.Bindings {
+					if b == ssa.Value(al) && i < len(cf.FreeVars) {
+						for _, r2 := range *cf.FreeVars[i].Referrers() {
+							if st, ok := r2.(*ssa.Store); ok && st.Addr == ssa.Value(cf.FreeVars[i]) {
+								n += 2
+							}
+						}
+					}
+				}
+			}
+		}
+	}
+	if n == 1 {
+		if prm, ok := src.(*ssa.Parameter); ok {
+			return prm
+		}
+	}
+	return v
 }
 
 func derefStruct(t types.Type) *types.Struct {
